@@ -288,6 +288,26 @@ EXACT_MODEL = {
 }
 
 
+def _model_unwrap(o):
+    """What is left of an annotation once qualifiers, value aliases and NewTypes are looked through, in any
+    nesting - for chains that consist of nothing else and end at a class or a subscripted generic."""
+    seen_wrapper = False
+    for _ in range(16):
+        if typing.get_origin(o) in (typing.ClassVar, typing.Final) and typing.get_args(o):
+            o, seen_wrapper = typing.get_args(o)[0], True
+        elif isinstance(o, typing.TypeAliasType) and not isinstance(o.__value__, str):
+            o, seen_wrapper = o.__value__, True
+        elif hasattr(o, "__supertype__"):
+            o, seen_wrapper = o.__supertype__, True
+        else:
+            break
+    if not seen_wrapper or isinstance(o, (typing.TypeVar, str, typing.ForwardRef, typing.TypeAliasType)):
+        return _MISSING
+    if typing.get_origin(o) in (typing.Union, types.UnionType, typing.Annotated, typing.Literal) or not (inspect.isclass(o) or typing.get_args(o)):
+        return _MISSING
+    return o
+
+
 def _class_names(o):
     if not inspect.isclass(o) or typing.get_origin(o) is not None or o.__module__ in ("typing", "typing_extensions"):
         raise TypeError("not a plain class")
@@ -517,6 +537,10 @@ class C17(PropBase):
                 return
             if ans[1] != want:
                 sess.violation("disagrees-with-runtime", i, {"pred": p, "obj": e, "library": ans[1], "runtime": want}, sig=f"runtime:{p}:{_oclass(e)}")
+        elif p == "unwrap" and dom in ("classy", "special"):
+            want = _model_unwrap(obj)
+            if want is not _MISSING and ans[1] != norm_answer("unwrap", want):
+                sess.violation("disagrees-with-runtime", i, {"pred": p, "obj": e, "library": ans[1], "runtime": norm_answer("unwrap", want)}, sig=f"runtime:unwrap:{_oclass(e)}")
         elif p == "origin" and dom == "classy":
             cls = resolve(obj)
             if cls is not None:
